@@ -1,6 +1,11 @@
 emit('C05', '''C05 — Handshake agrees and recovers under loss, duplication, reordering, dual open.
    Pinned statements only.
-   PARTIAL.  Proved for every message sequence (any loss, duplication, reordering the network can
+   Proved as one theorem (C05_lockstep_agreement): for ALL parameters (node ids, salts, key pairs,
+   trusted lists, cipher lists, payloads, random values) the loss-free exchange ping - pong - peng
+   between two mutually trusting, distinct nodes ends with both completed, each holding the payload
+   the other offered, the same cipher, the same key under key id 0 and opposite nonce halves, the
+   initiator in WAITING_TO_CLOSE and the responder in CLOSING.
+   PARTIAL.  Also proved for every message sequence (any loss, duplication, reordering the network can
    produce is a sequence of deliveries to one handshake object): at most one completion per attempt,
    completion closes the attempt, the roles of the two completions (exactly the initiator's
    PeerCrypto starts without a proposal pending, the responder's sends the first rotation message),
@@ -12,7 +17,7 @@ emit('C05', '''C05 — Handshake agrees and recovers under loss, duplication, re
    correspondence: all delivery schedules to depth 5/7 plus random ones, on the real code and the
    model, with the open-what-the-other-seals / roles / payload / at-most-once oracle and the reliable
    phase at the end (py/props/c05.py).''',
- ['Base','Nonce','Replay','Core','Conn','PeerCrypto','InitProofs','NegotiateProofs','Rotation2Proofs'],
+ ['Base','Nonce','Replay','Core','CoreProofs','Conn','PeerCrypto','InitProofs','NegotiateProofs','Rotation2Proofs','LockstepProofs'],
  [('at_most_once','InitProofs.v','at_most_once','whatever sequence of verified messages an attempt is fed, it completes at most once'),
   ('closed_inert','InitProofs.v','closed_no_success','a completed attempt ignores everything (no second success, state unchanged)'),
   ('success_closes','InitProofs.v','success_closes','completion closes the attempt'),
@@ -25,6 +30,27 @@ emit('C05', '''C05 — Handshake agrees and recovers under loss, duplication, re
   ('opposite_halves','InitProofs.v','hash_gt_opposite','agreement ingredient 3: opposite nonce halves'),
  ],
  tail='''
+(* the loss-free exchange (run3 = send ping; responder handles it; initiator handles the pong;
+   responder handles the peng), all parameters universally quantified *)
+Theorem C05_lockstep_agreement :
+  forall (ok : bytes -> bool) (nA sA kA fA nB sB kB fB : N) (pA pB rA rB : bytes) (tA tB : list N) (aA aB : algos),
+  existsb (N.eqb kB) tA = true -> existsb (N.eqb kA) tB = true -> nA <> nB ->
+  ok pA = true -> ok pB = true ->
+  all_bytes rA /\\ length rA = 6%nat -> all_bytes rB /\\ length rB = 6%nat ->
+  forall alg : option (N * N), select_algorithm aB aA = Ok alg -> select_algorithm aA aB = Ok alg ->
+  exists A2 B2 : init_state,
+    run3 ok (init_new nA sA pA kA tA aA fA rA) (init_new nB sB pB kB tB aB fB rB) =
+      Some (A2, B2, Ok IContinue, Ok (ISuccess pB true), Ok (ISuccess pA false)) /\\
+    i_selected A2 = option_map fst alg /\\ i_selected B2 = option_map fst alg /\\
+    i_stage A2 = WAITING_TO_CLOSE /\\ i_stage B2 = CLOSING /\\
+    match alg with
+    | Some _ => exists ca cb : core, i_core A2 = Some ca /\\ i_core B2 = Some cb /\\ wf_core ca /\\ wf_core cb /\\
+                  current ca = 0 /\\ current cb = 0 /\\ s_key (get_slot ca 0) = s_key (get_slot cb 0) /\\ half ca = negb (half cb)
+    | None => i_core A2 = None /\\ i_core B2 = None
+    end.
+Proof. exact lockstep_agreement_sec. Qed.
+Print Assumptions C05_lockstep_agreement.
+
 Example C05_ex_once : forall ok s, snd (run_init ok s []) <= 1.
 Proof. intros. apply at_most_once. Qed.
 ''')
